@@ -18,4 +18,4 @@ def run(prop, tier, only=None, replay=None):
         jobs = [j for j in jobs if re.search(only, j.name)]
     info = getattr(mod, 'INFO', {})
     return driver.main(prop, jobs, tier, info.get('level_note', ''), not_under_contract=info.get('not_under_contract', ()),
-                       extra_assumptions=info.get('assumptions', ()), explanation=info.get('explanation', ''))
+                       extra_assumptions=info.get('assumptions', ()), explanation=info.get('explanation', ''), partial=bool(only))
